@@ -178,6 +178,35 @@ func sessAlphabet(nmac int) []Op {
 	return a
 }
 
+// the wrap with OCCUPIED ids on both sides: every subset of {65534, 65535, 1, 2} in use (sessions placed there
+// by moving the counter, each with its own MAC) x the counter standing on every value of 65533..65535, 1, 2
+// (0 is never a counter value) x three CreateSession calls, the table observed after each.
+func sessWrapOccupied() []Case {
+	var out []Case
+	ids := []int{65534, 65535, 1, 2}
+	for mask := 0; mask < 16; mask++ {
+		for _, next := range []int{65533, 65534, 65535, 1, 2} {
+			c := Case{Comp: "sess", Cfg: []int{1}, Note: "occupied ids around the wrap, counter moved onto / before them"}
+			mac := 0
+			for i, id := range ids {
+				if mask&(1<<uint(i)) != 0 {
+					c.Ops = append(c.Ops, Op{K: "n", S: id}, Op{K: "c", C: mac})
+					mac++
+				}
+			}
+			c.Ops = append(c.Ops, Op{K: "n", S: next})
+			for k := 0; k < 3; k++ {
+				c.Ops = append(c.Ops, Op{K: "c", C: mac})
+				mac++
+			}
+			// the oldest session goes, the counter comes round once more
+			c.Ops = append(c.Ops, Op{K: "rold"}, Op{K: "n", S: 65535}, Op{K: "c", C: mac})
+			out = append(out, c)
+		}
+	}
+	return out
+}
+
 // guarded = every live session has its own MAC (a MAC is reused only after its session was removed)
 func genSessRandom(r *vh.Rng, maxOps int, guarded bool) Case {
 	next := 1
@@ -215,6 +244,13 @@ func genSessRandom(r *vh.Rng, maxOps int, guarded bool) Case {
 			if len(live) > 0 {
 				live = live[:len(live)-1]
 			}
+		case x < 10 && r.Chance(1, 2):
+			// the counter comes round: onto an id near the wrap or near where it started
+			v := []int{65533, 65534, 65535, 1, 2, next, next + 1}[r.Intn(7)]
+			if v < 1 || v > 65535 {
+				v = 1
+			}
+			c.Ops = append(c.Ops, Op{K: "n", S: v})
 		default:
 			// literal ids that are never live in a guarded history (0 and an id far from the counter)
 			id := 0
@@ -597,6 +633,12 @@ func genStreams(r *vh.Rng, thorough bool) []stream {
 		ex["initial_next_id"] = next
 		add("defect", "sess", cs, ex)
 	}
+	var wrap []vh.Case
+	for _, c := range sessWrapOccupied() {
+		wrap = append(wrap, toCase(c, run(c)))
+	}
+	add("guarded", "sess", wrap, map[string]interface{}{"exhaustive": true, "component": "pppoe.SessionManager id scan at the wrap",
+		"enumeration": "every subset of ids {65534, 65535, 1, 2} in use x counter on each of 65533, 65534, 65535, 1, 2 x three CreateSession calls (then the oldest session removed, the counter on 65535, one more call); full table observed after every call"})
 	add("guarded", "sess", rndCases(3*rnd, func() Case { return genSessRandom(r.Fork(), maxOps, true) }), nil)
 	add("defect", "sess", rndCases(rnd, func() Case { return genSessRandom(r.Fork(), maxOps, false) }), nil)
 	// --- circuit-id keys
